@@ -42,6 +42,7 @@ type SEnv struct {
 	depth   int
 	bound   map[string]bool // quantifier-bound names shadow locals
 	pre     func(name string) *SVal
+	preHeap   Heap               // heap on loop entry (for pre(expr) in loop invariants)
 	rangeSeen map[int]string     // range-call ordinal -> seen-set term (only while its invariants are evaluated)
 	rangeKeyT map[int]types.Type
 }
@@ -492,12 +493,28 @@ func (e *SEnv) sel(x *SX) *SVal {
 			// opaque objects embedded by value are referred to by address
 			return &SVal{V: &Val{A: cur}, T: types.NewPointer(ft)}
 		}
-		return &SVal{V: e.fr.wrap(g.load(e.heap, cur), ft), T: ft}
+		lv := e.fr.wrap(g.load(e.heap, cur), ft)
+		if _, isStruct := ft.Underlying().(*types.Struct); isStruct && lv.A == nil {
+			// a struct stored by value: remember where it lives (locks inside it are referred to by address)
+			lv = &Val{T: lv.T, A: cur}
+		}
+		return &SVal{V: lv, T: ft}
 	}
 	if st, ok := t.Underlying().(*types.Struct); ok {
 		fi, path := findField(t, st, x.Tok)
 		if fi < 0 {
 			e.fail("no field %s in %s", x.Tok, t)
+		}
+		if base.V.A != nil {
+			cur := base.V.A
+			ct := t
+			for _, step := range path {
+				cur = cur.extend(Sel{Field: step, StructT: ct})
+				ct = ct.Underlying().(*types.Struct).Field(step).Type()
+			}
+			if g.isOpaqueStruct(ct) || isLockType(ct) {
+				return &SVal{V: &Val{A: cur}, T: types.NewPointer(ct)}
+			}
 		}
 		term := base.V.T
 		ct := t
@@ -871,13 +888,33 @@ func (e *SEnv) callExpr(x *SX) *SVal {
 		return n.tr(args[0])
 	}
 	if fn.Op == "id" && fn.Tok == "pre" {
-		if e.pre == nil || len(args) != 1 || args[0].Op != "id" {
-			e.fail("pre(x) is only available in loop invariants, on a variable name")
+		if e.pre == nil || len(args) != 1 {
+			e.fail("pre(e) is only available in loop invariants")
 		}
-		if v := e.pre(args[0].Tok); v != nil {
-			return v
+		if args[0].Op == "id" {
+			if v := e.pre(args[0].Tok); v != nil {
+				return v
+			}
+			return e.tr(args[0]) // variable not modified by the loop
 		}
-		return e.tr(args[0]) // variable not modified by the loop
+		// pre(expr): the expression in the state on loop entry (loop variables at their entry values)
+		if e.preHeap == nil {
+			e.fail("pre(expr) is not available here")
+		}
+		n := e.child()
+		n.heap = e.preHeap
+		outer := e.locals
+		pre := e.pre
+		n.locals = func(name string) *SVal {
+			if v := pre(name); v != nil {
+				return v
+			}
+			if outer != nil {
+				return outer(name)
+			}
+			return nil
+		}
+		return n.tr(args[0])
 	}
 	f := e.tr(fn)
 	switch {
@@ -1190,9 +1227,39 @@ func (e *SEnv) refTerm(v *SVal) string {
 	return v.V.T
 }
 
+
+// anyofField recognises the modifies target anyof(T).f: field f of every object of struct type T
+// (used for statistics counters and for functions that touch objects of a type reached by name).
+func (e *SEnv) anyofField(m *SX) (types.Type, int, bool) {
+	if m.Op != "sel" || len(m.Args) != 1 || m.Args[0].Op != "call" || len(m.Args[0].Args) != 2 || m.Args[0].Args[0].Op != "id" || m.Args[0].Args[0].Tok != "anyof" {
+		return nil, 0, false
+	}
+	t := e.resolveType(strings.ReplaceAll(m.Args[0].Args[1].String(), " ", ""))
+	st, ok := t.Underlying().(*types.Struct)
+	if !ok {
+		e.fail("anyof(%s): not a struct type", m.Args[0].Args[1])
+	}
+	for i := 0; i < st.NumFields(); i++ {
+		if st.Field(i).Name() == m.Tok {
+			return t, i, true
+		}
+	}
+	e.fail("anyof(%s).%s: no such field", m.Args[0].Args[1], m.Tok)
+	return nil, 0, false
+}
+
 // havocTarget havocs one modifies target in heap nh (evaluated in the pre-state e.heap).
 func (e *SEnv) havocTarget(m *SX, nh Heap) Heap {
 	g := e.g
+	if t, fi, ok := e.anyofField(m); ok {
+		n, srt := g.fieldArrName(t, fi)
+		g.heapSort[n] = srt
+		g.heapArr(nh, n, srt)
+		nh2 := nh.clone()
+		nh2[n] = g.fresh(n, srt)
+		g.closureAxiomAt(n, nh2[n], srt, e.fr.allocOf(nh))
+		return nh2
+	}
 	switch m.Op {
 	case "sel":
 		base := e.tr(m.Args[0])
@@ -1358,6 +1425,26 @@ func (te *typeEnv) paramType(name string) types.Type {
 // typeOfSX: static type of simple path expressions over parameters (x, x.f, x.f.g)
 func (te *typeEnv) typeOfSX(x *SX) types.Type {
 	switch x.Op {
+	case "call":
+		// spec function application: its declared result type
+		if len(x.Args) > 0 && x.Args[0].Op == "id" {
+			if sf, ok := te.g.P.Contracts.SpecFuncs[x.Args[0].Tok]; ok && !sf.Uninterp {
+				fr := newFrame(te.g, nil, nil, "", 0)
+				env := &SEnv{fr: fr, g: te.g, vars: map[string]*SVal{}, heap: Heap{}, old: Heap{}, pkg: te.g.curPkg}
+				if sf.PkgPath != "" {
+					if p := te.g.P.pkgByPath(sf.PkgPath); p != nil {
+						env.pkg = p
+					}
+				}
+				var t types.Type
+				func() {
+					defer func() { recover() }()
+					t = env.resolveType(sf.Ret)
+				}()
+				return t
+			}
+		}
+		return nil
 	case "id":
 		return te.paramType(x.Tok)
 	case "sel":
@@ -1384,11 +1471,28 @@ func (te *typeEnv) typeOfSX(x *SX) types.Type {
 func (te *typeEnv) modNames(m *SX) ([]string, bool) {
 	// type-level resolution of a modifies target to heap array names (whole arrays: used for loop havoc)
 	g := te.g
+	if m.Op == "sel" && len(m.Args) == 1 && m.Args[0].Op == "call" && len(m.Args[0].Args) == 2 && m.Args[0].Args[0].Op == "id" && m.Args[0].Args[0].Tok == "anyof" {
+		fr := newFrame(g, nil, nil, "", 0)
+		env := &SEnv{fr: fr, g: g, vars: map[string]*SVal{}, heap: Heap{}, old: Heap{}, pkg: g.curPkg}
+		if t, fi, ok := env.anyofField(m); ok {
+			n, s := g.fieldArrName(t, fi)
+			g.heapSort[n] = s
+			return []string{n}, false
+		}
+	}
 	switch m.Op {
 	case "call":
 		if m.Args[0].Op == "id" {
 			if gh, ok := g.P.Contracts.Ghosts[m.Args[0].Tok]; ok {
 				return []string{"G$" + gh.Name}, false
+			}
+			if m.Args[0].Tok == "mapof" && len(m.Args) == 2 {
+				if t := te.typeOfSX(m.Args[1]); t != nil {
+					if mt, ok := t.Underlying().(*types.Map); ok {
+						d, v, c := g.mapArrNames(mt)
+						return []string{d, v, c}, false
+					}
+				}
 			}
 			if m.Args[0].Tok == "elems" && len(m.Args) == 2 {
 				if t := te.typeOfSX(m.Args[1]); t != nil {
@@ -1465,6 +1569,9 @@ func (fr *Frame) specBoolAt(x *SX, h Heap, b *ssa.BasicBlock, c Clause, _ bool) 
 			return m[name]
 		}
 		return nil
+	}
+	if fr.preHeaps != nil {
+		env.preHeap = fr.preHeaps[b.Index]
 	}
 	return env.boolTerm(x)
 }
